@@ -1,15 +1,63 @@
 """translate_effects.py — fail-closed abstraction of every function under <REPO>/bct to the effect
 language of coq/theories/Model/EffectLang.v (property C05), written to coq/theories/Gen/Effects.v.
 
-Only what can touch a random generator survives the translation; everything else becomes Skip.
-Fail-closed: a construct that mentions the seed parameter, a name holding an rng object, np.random or
-Python's random in a way the translator does not recognise becomes DrawNpGlobal/DrawPyGlobal (always
-rejected by the Coq checker) — nothing that touches those names is dropped.  Commands are tuples:
-('Skip',) ('GetRng',x,e) ('DrawLocal',x) ('DrawNpGlobal',) ('DrawPyGlobal',) ('Call',f,e) ('Seq',a,b)
-('Choice',a,b) ('Loop',a);  e in 'ESeed' | ('EVar',x) | 'ENone' | 'EOther'."""
-import ast, os, hashlib, json
+Only what can touch a random generator (or another source of nondeterminism) survives the translation;
+everything else becomes Skip.  WHITELIST-BASED: a name or a callee becomes Skip only if it is CLASSIFIED —
+a local value, a builtin known to be pure, a member of a module known to be deterministic (numpy outside
+numpy.random / numpy.matlib, scipy.linalg / sparse / special, math, itertools, ...), a class or function of
+bct itself (functions become Call, with the seed expression found at the call site), a module-level
+constant.  Everything else — an unknown global, a module-level alias, a member of a module that is not
+whitelisted (scipy.stats, sklearn, ...), a method whose name is an RNG method on an object of unknown origin,
+eval/getattr/..., any mention of the seed parameter / an rng name / np.random / random the translator does
+not recognise — becomes DrawNpGlobal / DrawPyGlobal, which the Coq checker always rejects.  Syntactic
+sources of non-RNG nondeterminism (time, os, uuid, hash(), id(), np.empty, iteration over a set, zero-argument
+rng.seed()) become NonDet (always rejected).  Commands are tuples:
+('Skip',) ('GetRng',x,e) ('DrawLocal',x) ('DrawNpGlobal',) ('DrawPyGlobal',) ('NonDet',) ('Call',f,e)
+('Seq',a,b) ('Choice',a,b) ('Loop',a);
+e in 'ESeed' | ('EVar',x) | 'ENone' | ('EDrawn',x) | 'EComputed' | 'EOther'."""
+import ast, os, hashlib, json, builtins as _builtins, random as _pyrandom
+import numpy as _np
 
-SKIP, NP, PY = ('Skip',), ('DrawNpGlobal',), ('DrawPyGlobal',)
+SKIP, NP, PY, ND = ('Skip',), ('DrawNpGlobal',), ('DrawPyGlobal',), ('NonDet',)
+
+# ---- the whitelist -------------------------------------------------------------------------------------------
+# modules (dotted prefixes) all of whose members are deterministic functions of their arguments ...
+PURE_MODULES = ('numpy', 'scipy.linalg', 'scipy.sparse', 'scipy.special', 'scipy.spatial', 'math', 'cmath', 'itertools',
+                'functools', 'collections', 'copy', 'warnings', 'operator', 'numbers', '__future__', 'string', 're', 'fractions',
+                'decimal', 'heapq', 'bisect', 'textwrap', 'abc', 'types', 'typing', 'enum')
+# ... except members with these path components (draws / random start vectors)
+RESTRICTED = {'random', 'matlib', 'rvs', 'eigs', 'eigsh', 'svds', 'lobpcg', 'testing'}
+# ... and these (contents of uninitialised memory)
+UNINIT = {'empty', 'empty_like'}
+# modules whose members read the environment
+NONDET_MODULES = {'time', 'datetime', 'os', 'uuid', 'secrets', 'socket', 'tempfile', 'getpass', 'platform', 'gc', 'weakref', 'threading',
+                  'glob', 'pathlib', 'shutil', 'subprocess', 'sys', 'inspect', 'resource', 'signal'}
+PURE_BUILTINS = {'abs', 'all', 'any', 'ascii', 'bin', 'bool', 'bytearray', 'bytes', 'callable', 'chr', 'complex', 'dict', 'divmod',
+                 'enumerate', 'filter', 'float', 'format', 'frozenset', 'hex', 'int', 'isinstance', 'issubclass', 'iter', 'len',
+                 'list', 'map', 'max', 'min', 'next', 'oct', 'ord', 'pow', 'print', 'range', 'repr', 'reversed', 'round', 'set',
+                 'slice', 'sorted', 'str', 'sum', 'tuple', 'type', 'zip', 'hasattr', 'object', 'super', 'staticmethod',
+                 'classmethod', 'property', 'True', 'False', 'None', 'NotImplemented', 'Ellipsis', '__name__', '__file__', '__doc__'}
+PURE_BUILTINS |= {n for n in dir(_builtins) if isinstance(getattr(_builtins, n), type) and issubclass(getattr(_builtins, n), BaseException)}
+NONDET_BUILTINS = {'hash', 'id', 'input', 'open'}
+# method names of numpy.random.RandomState / random.Random (+ scipy's rvs): calling one of them on anything that is not
+# a name bound by get_rng is treated as a draw from an unknown generator
+RNG_METHODS = ({n for n in dir(_np.random.RandomState) if not n.startswith('_')} | {n for n in dir(_pyrandom.Random) if not n.startswith('_')}
+               | {'rvs', 'random_state', 'default_rng', 'integers'})
+# members of modules that are NOT whitelisted as a whole
+PURE_MEMBERS = {'scipy.stats': {'pdf', 'logpdf', 'cdf', 'logcdf', 'sf', 'logsf', 'ppf', 'isf', 'pmf', 'logpmf', 'zscore', 'rankdata'}}
+# hand-vouched exceptions, each with its justification (reported in the evidence as part of the trusted base)
+TRUSTED_PATHS = {
+    'multiprocessing.cpu_count': 'only sizes the worker pool; Pool.map returns results in input order and every task carries its own seed, so the '
+                                 'result does not depend on the number of workers (tested on every run: workers=1 vs workers=2)',
+    'utils._verif.ON': 'switch of the verification hooks (BCTPY_VERIF), read once at import; the guarded branches only append copies of '
+                       'intermediate state to a log',
+}
+# the pinned corpus (harness/c05_corpus.py) may grow, never shrink below this (Properties/C05.v C05_translator_corpus states the same number)
+CORPUS_FLOOR = 32
+# decorators of top-level functions that are known to return the function unchanged
+PURE_DECORATORS = {'due.dcite'}
+# consumers that expose the iteration order of a set
+ORDER_CONSUMERS = {'list', 'tuple', 'enumerate', 'iter', 'next', 'zip', 'map', 'filter', 'array', 'asarray', 'fromiter', 'reversed'}
 JUMPS = (ast.Return, ast.Raise, ast.Break, ast.Continue)
 DEFS = (ast.FunctionDef, ast.AsyncFunctionDef, ast.Lambda, ast.ClassDef)
 # sha256 of ast.dump of get_rng's body (docstring removed) that Model/EffectLang.v [get_rng] mirrors by hand
@@ -71,10 +119,14 @@ class Mod:
             else:
                 todo += [(x, cls) for x in ast.iter_child_nodes(n) if isinstance(x, ast.stmt)]
         self.np_alias, self.np_random, self.py_random, self.bct_mods = set(), set(), set(), set()
+        self.imports, self.alias, self.classes, self.star_unknown = {}, {}, set(), False
         for n in ast.walk(tree):
+            if isinstance(n, ast.ClassDef):
+                self.classes.add(n.name)
             if isinstance(n, ast.Import):
                 for a in n.names:
                     top, bound = a.name.split('.')[0], a.asname or a.name.split('.')[0]
+                    self.imports[bound] = a.name if a.asname else top
                     if a.name == 'numpy.random' and a.asname:
                         self.np_random.add(a.asname)
                     elif top == 'numpy':
@@ -85,32 +137,102 @@ class Mod:
                         self.bct_mods.add(bound)
             elif isinstance(n, ast.ImportFrom):
                 m = n.module or ''
-                for a in n.names:
-                    bound = a.asname or a.name
-                    if m == 'numpy' and a.name in ('random', '*'):
-                        self.np_random.add('random' if a.name == '*' else bound)
+                bct_rel = n.level > 0 or m.split('.')[0] == 'bct'
+                names = [(a.name, a.asname or a.name) for a in n.names]
+                if any(a == '*' for a, _ in names) and not bct_rel:      # `from M import *`: every public name of M
+                    try:
+                        import importlib
+                        mod = importlib.import_module(m)
+                        names = [(x, x) for x in getattr(mod, '__all__', [y for y in dir(mod) if not y.startswith('_')])]
+                    except Exception:
+                        self.star_unknown, names = True, []
+                for name, bound in names:
+                    if name == '*':
+                        continue                                     # bct's own star imports: functions resolve by name
+                    if m == 'numpy' and name == 'random':
+                        self.np_random.add(bound)
                     elif m.startswith('numpy.random'):
                         self.np_random.add(bound)
                     elif m == 'random':
                         self.py_random.add(bound)
-                    elif n.level > 0 or m.split('.')[0] == 'bct':
+                    elif bct_rel:
                         self.bct_mods.add(bound)       # may be a submodule; harmless if it is a function
+                        if bound != name:
+                            self.alias[bound] = name
+                    else:
+                        self.imports[bound] = m + '.' + name
+        # module-level variables: `X = <expr>` outside any def.  'nprandom'/'pyrandom' if the value mentions numpy.random /
+        # random (an ALIAS of the generator module or of one of its members), 'const' if it is built from literals, else 'unknown'
+        self.globals_ = {}
+        todo = list(tree.body)
+        while todo:
+            n = todo.pop(0)
+            if isinstance(n, DEFS):
+                continue
+            tg = n.targets if isinstance(n, ast.Assign) else [n.target] if isinstance(n, (ast.AugAssign, ast.AnnAssign, ast.For)) else []
+            val = getattr(n, 'value', None) if not isinstance(n, ast.For) else None
+            for t in tg:
+                for x in ast.walk(t):
+                    if isinstance(x, ast.Name):
+                        k = self.value_kind(val)
+                        self.globals_[x.id] = k if self.globals_.get(x.id, k) == k else 'unknown'
+            if isinstance(n, (ast.With, ast.AsyncWith)):
+                for i in n.items:
+                    for x in ast.walk(i.optional_vars) if i.optional_vars is not None else []:
+                        if isinstance(x, ast.Name):
+                            self.globals_[x.id] = 'unknown'
+            todo += [x for x in ast.iter_child_nodes(n) if isinstance(x, ast.stmt)]
+        self.np_random |= {g for g, k in self.globals_.items() if k == 'nprandom'}
+        self.py_random |= {g for g, k in self.globals_.items() if k == 'pyrandom'}
+
+    def value_kind(self, v):
+        if v is None:
+            return 'unknown'
+        for x in ast.walk(v):
+            if isinstance(x, ast.Name) and x.id in self.np_random:
+                return 'nprandom'
+            if isinstance(x, ast.Name) and x.id in self.py_random:
+                return 'pyrandom'
+            if isinstance(x, ast.Attribute) and x.attr in ('random', 'matlib', 'mtrand'):
+                return 'nprandom'
+            if isinstance(x, ast.Name) and self.globals_.get(x.id) in ('nprandom', 'pyrandom'):
+                return self.globals_[x.id]
+        ok = (ast.Constant, ast.Tuple, ast.List, ast.Dict, ast.Set, ast.UnaryOp, ast.BinOp, ast.JoinedStr, ast.FormattedValue,
+              ast.expr_context, ast.operator, ast.unaryop)
+        for x in ast.walk(v):
+            if isinstance(x, ast.Name) and (self.globals_.get(x.id) == 'const' or x.id in ('True', 'False', 'None')):
+                continue
+            if not isinstance(x, ok):
+                return 'unknown'
+        return 'const'
+
+
+def read_tree(repo):
+    """{module name relative to bct: source text}"""
+    out, root = {}, os.path.join(repo, 'bct')
+    for d, _, fs in sorted(os.walk(root)):
+        for f in sorted(fs):
+            if f.endswith('.py'):
+                rel = os.path.relpath(os.path.join(d, f), root)[:-3].replace(os.sep, '.')
+                rel = rel[:-9] if rel.endswith('.__init__') else rel
+                out[rel] = open(os.path.join(d, f)).read()
+    return out
 
 
 class Translator:
-    def __init__(self, repo):
-        self.mods, self.by_name = {}, {}
-        root = os.path.join(repo, 'bct')
-        for d, _, fs in sorted(os.walk(root)):
-            for f in sorted(fs):
-                if f.endswith('.py'):
-                    rel = os.path.relpath(os.path.join(d, f), root)[:-3].replace(os.sep, '.')
-                    rel = rel[:-9] if rel.endswith('.__init__') else rel
-                    self.mods[rel] = Mod(rel, ast.parse(open(os.path.join(d, f)).read()))
+    def __init__(self, repo, extra=None):
+        """extra: {module name: source} added to (or replacing modules of) the tree — used by the negative corpus"""
+        self.mods, self.by_name, self.synth, self.why = {}, {}, {}, {}
+        src = repo if isinstance(repo, dict) else read_tree(repo)
+        src = dict(src, **(extra or {}))
+        for rel in sorted(src):
+            self.mods[rel] = Mod(rel, ast.parse(src[rel]))
         for m in self.mods.values():
             for fn in m.funcs:
                 self.by_name.setdefault(fn, []).append(m.name + '.' + fn)
         self.defs = {m.name + '.' + fn: (m, node) for m in self.mods.values() for fn, node in m.funcs.items()}
+        self.all_classes = set().union(*[m.classes for m in self.mods.values()]) if self.mods else set()
+        self.mod_names = {x for m in self.mods for x in m.split('.')} | {'bct'}
         g = self.defs.get(GET_RNG_HOME + '.get_rng')
         self.get_rng_ok = False
         if g and self.by_name.get('get_rng') == [GET_RNG_HOME + '.get_rng']:
@@ -119,6 +241,7 @@ class Translator:
             self.get_rng_sha = hashlib.sha256(dump.encode()).hexdigest()
             self.get_rng_ok = self.get_rng_sha == GET_RNG_SHA
         self.bodies = {q: FnTr(self, m, node, q).translate() for q, (m, node) in self.defs.items() if q != GET_RNG_HOME + '.get_rng'}
+        self.bodies.update(self.synth)                      # `<q>$rest`: see FnTr.default_seed_split
         # methods / module-level lambdas are not callable through the name resolution above: they must be effect-free
         self.unmodelled = sorted(m.name + '.' + k for m in self.mods.values() for k, node in m.methods.items()
                                  if FnTr(self, m, node, k).translate() != SKIP)
@@ -126,9 +249,63 @@ class Translator:
     def resolve(self, mod, name):
         if name in mod.funcs:
             return [mod.name + '.' + name]
-        return list(self.by_name.get(name, []))
+        return list(self.by_name.get(mod.alias.get(name, name), []))
+
+    def tuple_seed(self, q):
+        """`def f(args): seed, u, ... = args` (a task function for Pool.map): -> (parameter, names) or None"""
+        node = self.defs[q][1] if q in self.defs else None
+        if node is None:
+            return None
+        a = node.args
+        if len(a.args) != 1 or a.posonlyargs or a.kwonlyargs or a.vararg or a.kwarg or a.defaults:
+            return None
+        body = node.body[1:] if node.body and isinstance(node.body[0], ast.Expr) and isinstance(getattr(node.body[0], 'value', None), ast.Constant) else node.body
+        p = a.args[0].arg
+        if not body or not (isinstance(body[0], ast.Assign) and len(body[0].targets) == 1 and isinstance(body[0].targets[0], ast.Tuple)
+                            and isinstance(body[0].value, ast.Name) and body[0].value.id == p):
+            return None
+        elts = body[0].targets[0].elts
+        if not all(isinstance(e, ast.Name) for e in elts) or [e.id for e in elts].count('seed') != 1 or p == 'seed':
+            return None
+        if sum(1 for n in ast.walk(node) if isinstance(n, ast.Name) and n.id == p) != 1:
+            return None                                     # the tuple is used only to be unpacked
+        return p, [e.id for e in elts], body[0]
+
+    def global_kind(self, mod, name):
+        """classification of a name that is not local to the function using it -> (tag, payload)"""
+        if name in mod.np_random:
+            return 'nprandom', None
+        if name in mod.py_random:
+            return 'pyrandom', None
+        if name in mod.np_alias:
+            return 'path', 'numpy'
+        r = self.resolve(mod, name)
+        if r:
+            return 'bctfn', r
+        if name in mod.classes or (name in mod.bct_mods and name in self.all_classes):
+            return 'class', None
+        if name in mod.globals_:
+            return ('const' if mod.globals_[name] == 'const' else 'unknown'), None
+        if name in mod.bct_mods:
+            if name in self.mod_names:
+                return 'bctmod', None
+            ks = {m.globals_[name] for m in self.mods.values() if name in m.globals_}
+            return ('const' if ks == {'const'} else 'unknown'), None       # a module-level variable of another bct module
+        if name in mod.imports:
+            return 'path', mod.imports[name]
+        if mod.star_unknown:
+            return 'unknown', None
+        if name in PURE_BUILTINS:
+            return 'const', None
+        if name in NONDET_BUILTINS:
+            return 'nondet', None
+        return 'unknown', None          # eval / exec / getattr / globals / ... and every name nobody defines
 
     def seed_index(self, q):
+        if q in self.synth:
+            return -1
+        if self.tuple_seed(q):
+            return None                                     # a direct call cannot be given a seed the translator recognises
         a = self.defs[q][1].args
         names = [x.arg for x in a.posonlyargs + a.args]
         if 'seed' in names:
@@ -136,7 +313,27 @@ class Translator:
         return -1 if 'seed' in [x.arg for x in a.kwonlyargs] else None
 
     def kind(self, q):
-        return 'Seeded' if self.seed_index(q) is not None else 'Pure'
+        return 'Seeded' if q in self.synth or self.tuple_seed(q) or self.seed_index(q) is not None else 'Pure'
+
+
+def path_effect(dotted):
+    """effect of using (reading / calling) the member `dotted` of an imported module"""
+    comps = dotted.split('.')
+    if comps[0] == 'random':
+        return PY
+    if any(c in RESTRICTED or c == 'mtrand' for c in comps):
+        return NP
+    if dotted in TRUSTED_PATHS:
+        return SKIP
+    pure = any(dotted == p or dotted.startswith(p + '.') for p in PURE_MODULES)
+    pure = pure or any(dotted.startswith(p + '.') and comps[-1] in ok for p, ok in PURE_MEMBERS.items())
+    if pure and any(c in UNINIT for c in comps):
+        return ND
+    if pure:
+        return SKIP
+    if comps[0] in NONDET_MODULES:
+        return ND
+    return NP                                               # a module nobody vouched for
 
 
 class FnTr:
@@ -145,14 +342,33 @@ class FnTr:
     def __init__(self, T, mod, node, qname):
         self.T, self.M, self.node, self.q = T, mod, node, qname
         a = node.args
-        self.has_seed = 'seed' in [x.arg for x in a.posonlyargs + a.args + a.kwonlyargs]
+        self.tuple_seed = T.tuple_seed(qname) if qname in T.defs and T.defs[qname][1] is node else None
+        self.has_seed = 'seed' in [x.arg for x in a.posonlyargs + a.args + a.kwonlyargs] or bool(self.tuple_seed)
         self.nested, self.stack, self.rec_hit, self.cache = {}, [], set(), {}
         for n in ast.walk(node):
             if n is not node and isinstance(n, (ast.FunctionDef, ast.AsyncFunctionDef)):
                 self.nested[n.name] = None if n.name in self.nested else n      # None = ambiguous
         stores = [n.id for n in ast.walk(node) if isinstance(n, ast.Name) and isinstance(n.ctx, (ast.Store, ast.Del))]
+        self.stores = stores
         self.locals = set(stores) | {x.arg for x in ast.walk(node) if isinstance(x, ast.arg)}
-        self.seed_ok = self.has_seed and 'seed' not in stores
+        self.split = self.default_seed_split(stores)
+        self.seed_ok = self.has_seed and (stores.count('seed') == (1 if self.tuple_seed else 0) + (1 if self.split is not None else 0))
+        assigns = {}                       # local name -> values assigned to it anywhere in the function (None: not a plain assignment)
+        for n in ast.walk(node):
+            if isinstance(n, ast.Assign) and len(n.targets) == 1 and isinstance(n.targets[0], ast.Name):
+                assigns.setdefault(n.targets[0].id, []).append(n.value)
+        for x in stores:
+            if stores.count(x) != len(assigns.get(x, [])):
+                assigns[x] = [None] * stores.count(x)
+        self.assigns = assigns
+        argnames = {y.arg for y in ast.walk(node) if isinstance(y, ast.arg)}
+        once = lambda x: assigns[x][0] if len(assigns.get(x, [])) == 1 and x not in argnames else None
+        self.once = once
+        # locals holding a lambda (inlined at the call), a multiprocessing.Pool, a set
+        self.lambdas = {x for x in assigns if isinstance(once(x), ast.Lambda)}
+        self.pools = {x for x in assigns if self.is_pool_ctor(once(x))}
+        self.sets = {x for x, vs in assigns.items() if any(self.is_set_expr(v, ()) for v in vs)}
+        self.sets = {x for x, vs in assigns.items() if any(self.is_set_expr(v, ()) for v in vs)}      # second pass: s2 = s1 | {..}
         self.tracked = set()
         grew = True
         while grew:                        # names assigned from get_rng(..) or from another such name
@@ -164,8 +380,73 @@ class FnTr:
                         self.tracked.add(y)
                         grew = True
 
+        # names assigned once from a draw: `x = rng.randint(..)` / `x = get_rng(e).randint(..)` -> the rng name they come from
+        self.drawn = {}
+        for x in assigns:
+            v = once(x)
+            if isinstance(v, ast.Call) and isinstance(v.func, ast.Attribute):
+                if isinstance(v.func.value, ast.Name) and v.func.value.id in self.tracked:
+                    self.drawn[x] = v.func.value.id
+                elif self.is_get_rng(v.func.value):
+                    self.drawn[x] = self.tmp_rng(v.func.value)
+
     def translate(self):
-        return self.block(self.node.body)
+        body = self.node.body
+        if self.tuple_seed:                # the unpacking statement IS the parameter list
+            body = [s for s in body if s is not self.tuple_seed[2]]
+        c = self.block(body, top=True)
+        def deco_name(d):
+            root, attrs, _ = self.chain(d.func if isinstance(d, ast.Call) else d)
+            return '.'.join([root or '?'] + attrs)
+        decos = [d for d in getattr(self.node, 'decorator_list', []) if deco_name(d) not in PURE_DECORATORS]
+        return seq(NP, c) if decos else c  # a decorator nobody vouched for may replace the function
+
+    def flag(self, c, node, why):
+        """a pessimistic effect, with the reason (diagnostics only)"""
+        self.T.why.setdefault(self.q, []).append('line %s: %s' % (getattr(node, 'lineno', '?'), why))
+        return c
+
+    def tmp_rng(self, call):
+        return '$rng%d_%d' % (call.lineno, call.col_offset)
+
+    def is_pool_ctor(self, v):
+        if not (isinstance(v, ast.Call) and isinstance(v.func, ast.Attribute) and v.func.attr == 'Pool' and isinstance(v.func.value, ast.Name)):
+            return False
+        r = v.func.value.id
+        return r not in self.locals_early() and self.M.imports.get(r) == 'multiprocessing'
+
+    def locals_early(self):
+        return getattr(self, 'locals', set())
+
+    def is_set_expr(self, v, seen):
+        if isinstance(v, (ast.Set, ast.SetComp)):
+            return True
+        if isinstance(v, ast.Call) and isinstance(v.func, ast.Name) and v.func.id in ('set', 'frozenset') and v.func.id not in self.locals_early():
+            return True
+        if isinstance(v, ast.Name):
+            return v.id in getattr(self, 'sets', ())
+        if isinstance(v, ast.BinOp) and isinstance(v.op, (ast.BitOr, ast.BitAnd, ast.Sub, ast.BitXor)):
+            return self.is_set_expr(v.left, seen) or self.is_set_expr(v.right, seen)
+        return False
+
+    def default_seed_split(self, stores):
+        """index i of a top-level statement `if seed is None: seed = <expr>` that is the only re-assignment of the seed parameter
+        and precedes every get_rng(..): the rest of the body then runs as the function `<q>$rest` called with the raw seed
+        or with a number computed from the arguments (FnTr.block)"""
+        if not self.has_seed:
+            return None
+        body = self.node.body
+        for i, s in enumerate(body):
+            if (stores.count('seed') == (2 if self.tuple_seed else 1) and isinstance(s, ast.If) and not s.orelse and len(s.body) == 1 and isinstance(s.test, ast.Compare)
+                    and isinstance(s.test.left, ast.Name) and s.test.left.id == 'seed' and len(s.test.ops) == 1
+                    and isinstance(s.test.ops[0], ast.Is) and isinstance(s.test.comparators[0], ast.Constant) and s.test.comparators[0].value is None
+                    and isinstance(s.body[0], ast.Assign) and len(s.body[0].targets) == 1 and isinstance(s.body[0].targets[0], ast.Name)
+                    and s.body[0].targets[0].id == 'seed'):
+                before = [n for st in body[:i] for n in ast.walk(st) if isinstance(n, ast.Call) and isinstance(n.func, ast.Name) and n.func.id == 'get_rng']
+                mentions = [n for n in ast.walk(s.body[0].value) if isinstance(n, ast.Name) and n.id == 'seed']
+                if not before and not mentions:
+                    return s
+        return None
 
     # ---------------------------------------------------------------- helpers
     def is_get_rng(self, v):
@@ -207,8 +488,8 @@ class FnTr:
                 return NP
             if root in self.tracked:
                 return NP                                   # attribute of an rng object used as a value
-            if root in self.M.np_alias and root not in self.locals:
-                return SKIP                                 # np.<something else>
+            if root is not None and root not in self.locals and root not in self.nested:
+                return self.global_use(root, attrs, node=n) # member of a module / of a global object
             return self.ex(base)
         if isinstance(n, ast.Name):
             return self.name(n)
@@ -217,7 +498,7 @@ class FnTr:
         if isinstance(n, (ast.ListComp, ast.SetComp, ast.GeneratorExp, ast.DictComp)):
             c = seq(self.ex(n.key), self.ex(n.value)) if isinstance(n, ast.DictComp) else self.ex(n.elt)
             for g in reversed(n.generators):
-                c = seq(self.ex(g.iter), loop(seq(self.store(g.target), self.ex(g.ifs), c)))
+                c = seq(self.ex(g.iter), ND if self.is_set_expr(g.iter, ()) else SKIP, loop(seq(self.store(g.target), self.ex(g.ifs), c)))
             return c
         if isinstance(n, ast.IfExp):
             return seq(self.ex(n.test), choice(self.ex(n.body), self.ex(n.orelse)))
@@ -233,21 +514,51 @@ class FnTr:
     def name(self, n):
         i = n.id
         if i in self.tracked or (i == 'seed' and self.has_seed):
-            return NP                                       # the rng / the raw seed escapes or is inspected
+            return self.flag(NP, n, 'the rng / the raw seed escapes or is inspected: ' + i)
         if i in self.locals:
             return SKIP
-        out = []
-        if i in self.M.np_random:
-            out.append(NP)
-        if i in self.M.py_random:
-            out.append(PY)
-        if i in self.M.np_alias:
-            out.append(NP)                                  # bare numpy module passed around
         if i in self.nested:
-            out.append(NP if self.nested[i] is None or self.inline(i) != SKIP else SKIP)
-        elif self.T.resolve(self.M, i):
-            out.append(choices([('Call', q, 'EOther') for q in self.T.resolve(self.M, i)]))   # function used as a value
-        return seq(*out)
+            return NP if self.nested[i] is None or self.inline(i) != SKIP else SKIP
+        return self.global_use(i, [], node=n)
+
+    def global_use(self, root, attrs, called=False, node=None):
+        c = self.global_use0(root, attrs, called)
+        if c in (NP, PY, ND):
+            self.flag(c, node, '%s: %s' % (c[0], '.'.join([root] + attrs)))
+        return c
+
+    def global_use0(self, root, attrs, called=False):
+        """effect of reading (or, with called=True, calling) <root>.<attrs> where root is not a local name; bct functions that are
+        CALLED are handled by call() before it gets here"""
+        tag, pay = self.T.global_kind(self.M, root)
+        if tag == 'nprandom':
+            return NP
+        if tag == 'pyrandom':
+            return PY
+        if tag == 'path':
+            if not attrs and pay == 'numpy':
+                return NP                                   # bare numpy module passed around
+            return path_effect('.'.join([pay] + attrs))
+        if tag == 'bctfn':
+            return choices([('Call', q, 'EOther') for q in pay]) if not attrs else SKIP   # function used as a value / its attribute (__name__, ...)
+        if tag == 'bctmod':
+            if not attrs:
+                return NP                                   # a module object passed around
+            a, owner = attrs[-1], (attrs[-2] if len(attrs) > 1 else root)
+            cands = self.T.by_name.get(a, [])
+            if cands:
+                return choices([('Call', q, 'EOther') for q in cands])     # bct.utils.f used as a value
+            if a in self.T.all_classes or a in self.T.mod_names:
+                return SKIP
+            defs = {m.name + '.' + a: m.globals_[a] for m in self.T.mods.values() if m.name.split('.')[-1] == owner and a in m.globals_}
+            return SKIP if defs and all(k == 'const' or q in TRUSTED_PATHS for q, k in defs.items()) else NP     # a module-level variable
+        if tag == 'class':
+            return SKIP                                     # methods of bct classes are checked to be effect-free (no_unmodelled_effects)
+        if tag == 'const':
+            return SKIP if not (called and attrs) or attrs[-1] not in RNG_METHODS else NP
+        if tag == 'nondet':
+            return ND
+        return NP                                           # unknown global
 
     def store(self, t):
         if t is None:
@@ -264,28 +575,62 @@ class FnTr:
 
     def call(self, n):
         f = n.func
-        args = seq(self.ex(n.args), self.ex([k.value for k in n.keywords]))
+        args_ = lambda: seq(self.ex(n.args), self.ex([k.value for k in n.keywords]))
         if self.is_get_rng(n):
-            return seq(args, NP)                            # get_rng(..) not directly assigned to a name
+            return seq(args_(), self.flag(NP, n, 'get_rng(..) neither assigned to a name nor drawn from at once'))
         if isinstance(f, ast.Attribute) and isinstance(f.value, ast.Name) and f.value.id in self.tracked:
-            return seq(args, ('DrawLocal', f.value.id))     # rng.<method>(..)
+            if f.attr == 'seed' and not n.args and not n.keywords:
+                return ND                                   # rng.seed(): re-seeded from OS entropy
+            return seq(args_(), ('DrawLocal', f.value.id))     # rng.<method>(..)
+        if isinstance(f, ast.Attribute) and self.is_get_rng(f.value):      # get_rng(e).<method>(..): a temporary name holds the rng
+            g, t = f.value, self.tmp_rng(f.value)
+            if len(g.args) + len(g.keywords) <= 1 and not any(isinstance(a, ast.Starred) for a in g.args) and all(k.arg == 'seed' for k in g.keywords):
+                c, e = self.classify((g.args + [k.value for k in g.keywords] + [None])[0])
+                return seq(args_(), c, ('GetRng', t, e), ('DrawLocal', t))
+            return seq(args_(), NP)
         if isinstance(f, ast.Attribute) and self.np_random_chain(f):
-            return seq(args, NP)
+            return seq(args_(), NP)
+        if isinstance(f, ast.Attribute) and isinstance(f.value, ast.Name) and f.value.id in self.pools:
+            return self.pool_call(n, args_)
+        # exposure of the iteration order of a set
+        if (isinstance(f, ast.Name) and f.id in ORDER_CONSUMERS and f.id not in self.locals) or (isinstance(f, ast.Attribute) and f.attr in ORDER_CONSUMERS):
+            if any(self.is_set_expr(a, ()) for a in n.args):
+                return seq(args_(), ND)
+        if isinstance(f, ast.Attribute) and f.attr == 'pop' and not n.args and self.is_set_expr(f.value, ()):
+            return ND
         cands, nested = [], None
         if isinstance(f, ast.Name) and f.id in self.nested:
             nested = f.id
-        elif isinstance(f, ast.Name) and f.id not in self.locals:
-            cands = self.T.resolve(self.M, f.id)
-            if f.id in ('eval', 'exec', '__import__', 'globals', 'vars'):
-                return seq(args, NP)
+        elif isinstance(f, ast.Name) and f.id in self.lambdas:
+            lam = self.once(f.id)
+            return seq(args_(), self.block([ast.Expr(lam.body)]))          # a local lambda: its body, at the call
+        elif isinstance(f, ast.Name) and f.id in self.locals:
+            fs = self.callable_param(f.id)                  # a parameter of a nested def that only ever receives nested defs
+            if fs is not None:
+                return seq(args_(), choices([self.inline(x) for x in fs]))
+            return seq(args_(), self.flag(NP, n, 'call of a local callable of unknown origin: ' + f.id))
+        elif isinstance(f, ast.Name):
+            tag, pay = self.T.global_kind(self.M, f.id)
+            if tag != 'bctfn':
+                return seq(args_(), self.global_use(f.id, [], called=True, node=n))
+            cands = pay
         elif isinstance(f, ast.Attribute):
-            root, attrs, _ = self.chain(f)
-            if root in self.M.bct_mods and root not in self.locals:
-                cands = list(self.T.by_name.get(f.attr, []))
+            root, attrs, base = self.chain(f)
+            if root is None or root in self.locals or root in self.nested:
+                # a method of a value (local object, result of an expression): the value was classified where it was produced
+                return seq(self.ex(f.value), args_(), self.flag(NP, n, 'RNG method name on an object that is not a tracked rng: .' + f.attr) if f.attr in RNG_METHODS else SKIP)
+            tag, pay = self.T.global_kind(self.M, root)
+            if tag == 'bctmod' and self.T.by_name.get(f.attr):
+                cands = list(self.T.by_name[f.attr])
+            else:
+                return seq(args_(), self.global_use(root, attrs, called=True, node=n))
+        elif (isinstance(f, ast.Call) and isinstance(f.func, ast.Name) and f.func.id == 'type' and 'type' not in self.locals
+              and len(f.args) == 1 and not f.keywords):
+            return seq(self.ex(f.args), args_())            # type(v)(..): an instance of the class of a value classified where it was produced
+        else:
+            return seq(self.ex(f), args_(), self.flag(NP, n, 'callee is an expression'))   # f(..)(..), table[i](..): a callable of unknown origin
         if nested is not None:
-            return seq(args, NP if self.nested[nested] is None else self.inline(nested))
-        if not cands:
-            return seq(self.ex(f), args)
+            return seq(args_(), NP if self.nested[nested] is None else self.inline(nested))
         outs = []
         for q in cands:
             if q == GET_RNG_HOME + '.get_rng':
@@ -313,6 +658,56 @@ class FnTr:
             outs.append(seq(*pre, ('Call', q, e)))
         return choices(outs)
 
+    def callable_param(self, p):
+        owners = [d for d in self.nested.values() if d is not None and p in [a.arg for a in d.args.posonlyargs + d.args.args]]
+        if len(owners) != 1 or p in self.stores or p in [a.arg for a in ast.walk(self.node.args) if isinstance(a, ast.arg)]:
+            return None
+        d = owners[0]
+        pos = [a.arg for a in d.args.posonlyargs + d.args.args].index(p)
+        sites = [c for c in ast.walk(self.node) if isinstance(c, ast.Call) and isinstance(c.func, ast.Name) and c.func.id == d.name]
+        loads = sum(1 for x in ast.walk(self.node) if isinstance(x, ast.Name) and x.id == d.name)
+        if not sites or loads != len(sites):
+            return None                                     # the nested def escapes as a value: its callers are not all known
+        out = set()
+        for c in sites:
+            if any(isinstance(a, ast.Starred) for a in c.args) or any(k.arg is None for k in c.keywords):
+                return None
+            arg = c.args[pos] if pos < len(c.args) else next((k.value for k in c.keywords if k.arg == p), None)
+            if not (isinstance(arg, ast.Name) and self.nested.get(arg.id) is not None and arg.id not in self.stores):
+                return None
+            out.add(arg.id)
+        return sorted(out)
+
+    def drawn_elem(self, e):
+        """seed expression of a task-tuple element: int(perm_seeds[u]) with perm_seeds drawn from rng x -> EDrawn x"""
+        if isinstance(e, ast.Call) and isinstance(e.func, ast.Name) and e.func.id == 'int' and 'int' not in self.locals and len(e.args) == 1 and not e.keywords:
+            e = e.args[0]
+        if isinstance(e, ast.Subscript) and isinstance(e.value, ast.Name) and e.value.id in self.drawn and self.ex(e.slice) == SKIP:
+            return ('EDrawn', self.drawn[e.value.id])
+        if isinstance(e, ast.Name) and e.id in self.drawn:
+            return ('EDrawn', self.drawn[e.id])
+        return self.classify(e)[1] if self.classify(e)[0] == SKIP else 'EOther'
+
+    def pool_call(self, n, args_):
+        """pool.map(task, tasks): a loop of calls of `task`, one per element, in order (Pool.map returns the results in the order
+        of the inputs; the task tuples are pickled, which preserves numbers); pool.close/join/terminate: nothing"""
+        f = n.func
+        if f.attr in ('close', 'join', 'terminate') and not n.args and not n.keywords:
+            return SKIP
+        if f.attr != 'map' or len(n.args) != 2 or n.keywords or not all(isinstance(a, ast.Name) for a in n.args):
+            return seq(args_(), NP)                            # imap_unordered, apply_async, ...: order / scheduling dependent
+        fn, lst = n.args[0].id, n.args[1].id
+        cands = self.T.resolve(self.M, fn) if fn not in self.locals else []
+        comp = self.once(lst)
+        uses = sum(1 for x in ast.walk(self.node) if isinstance(x, ast.Name) and x.id == lst)
+        if len(cands) != 1 or not self.T.tuple_seed(cands[0]) or uses != 2 or not (isinstance(comp, ast.ListComp) and isinstance(comp.elt, ast.Tuple)):
+            return seq(args_(), NP)
+        names = self.T.tuple_seed(cands[0])[1]
+        if len(comp.elt.elts) != len(names) or any(isinstance(x, ast.Starred) for x in comp.elt.elts):
+            return seq(args_(), NP)
+        e = self.drawn_elem(comp.elt.elts[names.index('seed')])
+        return loop(('Call', cands[0], e))                  # (the other elements were evaluated where the list was built)
+
     def inline(self, name):
         if name in self.cache:
             return self.cache[name]
@@ -333,8 +728,15 @@ class FnTr:
         return c
 
     # ---------------------------------------------------------------- statements
-    def block(self, stmts):
+    def block(self, stmts, top=False):
         out = SKIP
+        if top and self.split is not None and any(s is self.split for s in stmts) and self.seed_ok:
+            i = [k for k, s in enumerate(stmts) if s is self.split][0]
+            rest = self.q + '$rest'                         # `if seed is None: seed = <number computed from the arguments>`:
+            self.T.synth[rest] = self.block(stmts[i + 1:])  # what follows is a function of its own, called with the seed
+            out = seq(self.ex(self.split.body[0].value),    # as received or with that number
+                      choice(('Call', rest, 'ESeed'), ('Call', rest, 'EComputed')))
+            stmts = stmts[:i]
         for s in reversed(stmts):
             c = self.st(s)
             out = seq(c, choice(out, SKIP)) if has_jump(s) else seq(c, out)   # a jump makes the rest optional
@@ -350,6 +752,8 @@ class FnTr:
                     return seq(c, ('GetRng', y, e))
                 if isinstance(v, ast.Name) and v.id in self.tracked:
                     return ('GetRng', y, ('EVar', v.id))
+                if y in self.pools and self.is_pool_ctor(v):
+                    return seq(self.ex(v.args), self.ex([k.value for k in v.keywords]))     # pool = multiprocessing.Pool(workers)
             return seq(self.ex(v), self.store(s.targets))
         if isinstance(s, ast.AugAssign):
             return seq(self.ex(s.value), self.ex(s.target) if not isinstance(s.target, ast.Name) else self.name(s.target), self.store(s.target))
@@ -366,11 +770,11 @@ class FnTr:
         if isinstance(s, (ast.Pass, ast.Break, ast.Continue, ast.Import, ast.ImportFrom)):
             return SKIP
         if isinstance(s, (ast.Global, ast.Nonlocal)):
-            return NP if set(s.names) & (self.tracked | {'seed'} | self.M.np_alias | self.M.np_random | self.M.py_random) else SKIP
+            return NP                                       # rebinding of names outside the function: not modelled
         if isinstance(s, ast.If):
             return seq(self.ex(s.test), choice(self.block(s.body), self.block(s.orelse)))
         if isinstance(s, (ast.For, ast.AsyncFor)):
-            return seq(self.ex(s.iter), loop(seq(self.store(s.target), self.block(s.body))), self.block(s.orelse))
+            return seq(self.ex(s.iter), ND if self.is_set_expr(s.iter, ()) else SKIP, loop(seq(self.store(s.target), self.block(s.body))), self.block(s.orelse))
         if isinstance(s, ast.While):
             return seq(loop(seq(self.ex(s.test), self.block(s.body))), self.ex(s.test), self.block(s.orelse))
         if isinstance(s, (ast.With, ast.AsyncWith)):
@@ -418,27 +822,27 @@ def closure(bodies, roots):
     return seen
 
 
-def build(repo, exclude=()):
+def build(repo, exclude=(), extra=None):
     """-> dict(program={q:(kind,cmd)}, excluded={...}, out_of_scope=[...], get_rng_ok, roots)"""
-    T = Translator(repo)
+    T = Translator(repo, extra)
     roots = sorted(q for q in T.bodies if T.kind(q) == 'Seeded')
     keep = closure(T.bodies, [r for r in roots if r not in exclude])
     allr = closure(T.bodies, roots)
     prog = {q: (T.kind(q), T.bodies[q]) for q in sorted(keep)}
     excl = {q: (T.kind(q), T.bodies[q]) for q in sorted(allr - keep)}
-    oos = sorted(q for q in T.bodies if q not in allr and has(T.bodies[q], ('DrawNpGlobal', 'DrawPyGlobal', 'GetRng', 'DrawLocal')))
+    oos = sorted(q for q in T.bodies if q not in allr and has(T.bodies[q], ('DrawNpGlobal', 'DrawPyGlobal', 'NonDet', 'GetRng', 'DrawLocal')))
     return {'program': prog, 'excluded': excl, 'out_of_scope': oos, 'get_rng_ok': T.get_rng_ok, 'unmodelled': T.unmodelled,
-            'get_rng_sha': getattr(T, 'get_rng_sha', None), 'roots': roots, 'n_functions_scanned': len(T.bodies)}
+            'get_rng_sha': getattr(T, 'get_rng_sha', None), 'roots': roots, 'n_functions_scanned': len(T.bodies), 'why': T.why}
 
 
 # -------------------------------------------------------------------- Coq emission
 def coq_e(e):
-    return e if isinstance(e, str) else '(EVar "%s")' % e[1]
+    return e if isinstance(e, str) else '(%s "%s")' % (e[0], e[1])
 
 
 def coq(c, ind=2):
     t, p = c[0], ' ' * ind
-    if t in ('Skip', 'DrawNpGlobal', 'DrawPyGlobal'):
+    if t in ('Skip', 'DrawNpGlobal', 'DrawPyGlobal', 'NonDet'):
         return t
     if t == 'GetRng':
         return '(GetRng "%s" %s)' % (c[1], coq_e(c[2]))
@@ -453,6 +857,31 @@ def coq(c, ind=2):
 
 def ident(q):
     return 'f_' + ''.join(ch if ch.isalnum() else '_' for ch in q)
+
+
+def emit_corpus(cor):
+    """coq/theories/Gen/EffectsNeg.v: the pinned corpus translated by the CURRENT translator; the Coq checker must reject every
+    negative entry point and accept every control"""
+    L = ['(* GENERATED on every run by harness/translate_effects.py from harness/c05_corpus.py + the bct/ source tree. DO NOT EDIT.',
+         '   Negative snippets (each breaks the seeding discipline or determinism) and controls, as translated by the current translator. *)',
+         'From Coq Require Import List String Bool.', 'From BCT Require Import Model.EffectLang.',
+         'Import ListNotations.', 'Open Scope string_scope.', '']
+    d = cor['program']
+    for q, (k, c) in d.items():
+        L.append('Definition %s : cmd :=\n  %s.' % (ident(q), coq(c, 2)))
+    L += ['', 'Definition corpus : EffectLang.program :=\n  [ %s ].' % ';\n    '.join('("%s", (%s, %s))' % (q, k, ident(q)) for q, (k, c) in d.items()), '',
+          'Definition negative_entry_points : list string :=\n  [ %s ].' % ';\n    '.join('"%s"' % q for q in cor['negative']), '',
+          'Definition control_entry_points : list string :=\n  [ %s ].' % ';\n    '.join('"%s"' % q for q in cor['control']), '',
+          'Definition present (f : string) : bool := match lookup corpus f with Some _ => true | None => false end.', '',
+          '(* every entry point was translated (a missing one would be "rejected" for the wrong reason); every negative one is rejected',
+          '   by the checker; every control is accepted *)',
+          'Example corpus_verdicts :',
+          '  forallb present (negative_entry_points ++ control_entry_points) = true /\\',
+          '  forallb (fun f => negb (seed_safe corpus f)) negative_entry_points = true /\\',
+          '  forallb (seed_safe corpus) control_entry_points = true /\\',
+          '  %d <= List.length negative_entry_points.' % CORPUS_FLOOR,
+          'Proof. vm_compute. repeat split; try reflexivity; repeat constructor. Qed.', '']
+    return '\n'.join(L)
 
 
 def emit(res):
@@ -476,7 +905,13 @@ def emit(res):
           '(* `excluded` = seed-accepting functions declared outside the static model (harness/c05.py STATIC_OUT_OF_MODEL:',
           '   multiprocessing) or carrying a recorded known finding with `static_exclude`, and what only they reach.',
           '   Nothing in `program` may call them: the checker rejects calls to functions outside `program`. *)',
-          'Example all_safe : prog_safe program = true.', 'Proof. vm_compute. reflexivity. Qed.', '']
+          'Example all_safe : prog_safe program = true.', 'Proof. vm_compute. reflexivity. Qed.', '',
+          '(* the functions of bct/ that accept a seed (a parameter named `seed`, or a task tuple unpacked into `seed, ...`), and',
+          '   `<f>$rest` = the body of f after `if seed is None: seed = <number>`: every one of them is in `program` *)',
+          'Definition seeded_functions : list string :=\n  [ %s ].' % ';\n    '.join('"%s"' % q for q in res['roots']),
+          'Example seeded_functions_in_program :',
+          '  forallb (fun f => match lookup program f with Some (Seeded, _) => true | _ => false end) seeded_functions = true.',
+          'Proof. vm_compute. reflexivity. Qed.', '']
     return '\n'.join(L)
 
 
@@ -490,20 +925,26 @@ def py_check(prog, c, a):
     if t == 'GetRng':
         if c[2] == 'ESeed':
             return 'raw seed consumed twice (get_rng(seed) after the seed was already used)' if u else (True, B | {c[1]})
-        if isinstance(c[2], tuple):
+        if isinstance(c[2], tuple) and c[2][0] == 'EVar':
             return (u, B | {c[1]}) if c[2][1] in B else 'get_rng(%s): %s does not hold the rng here' % (c[2][1], c[2][1])
-        return '%s = get_rng(<%s>): not derived from the seed parameter' % (c[1], c[2])
+        return '%s = get_rng(<%s>): not derived from the seed parameter' % (c[1], c[2] if isinstance(c[2], str) else c[2][0])
     if t == 'DrawLocal':
         return a if c[1] in B else 'draw on %s which does not (on every path) hold the rng' % c[1]
     if t in ('DrawNpGlobal', 'DrawPyGlobal'):
-        return 'uses %s (or an unrecognised use of the seed / an rng object)' % ('np.random' if t == 'DrawNpGlobal' else "Python's random")
+        return 'uses %s (or an unrecognised use of the seed / an rng object / a name or callee nobody vouched for)' % ('np.random' if t == 'DrawNpGlobal' else "Python's random")
+    if t == 'NonDet':
+        return 'reads the environment (time / os / hash / id / np.empty / set order / rng.seed())'
     if t == 'Call':
         if c[1] not in prog:
             return 'calls %s which is outside the checked program' % c[1]
         if c[2] == 'ESeed':
             return 'raw seed passed to %s after it was already consumed (re-seeding)' % c[1] if u else (True, B)
-        if isinstance(c[2], tuple):
+        if isinstance(c[2], tuple) and c[2][0] == 'EVar':
             return a if c[2][1] in B else 'passes %s to %s but it does not hold the rng' % (c[2][1], c[1])
+        if isinstance(c[2], tuple):                         # EDrawn
+            return a if c[2][1] in B else 'seeds %s with numbers drawn from %s but it does not hold the rng' % (c[1], c[2][1])
+        if c[2] == 'EComputed':
+            return 'seeds %s with a computed number after the raw seed was consumed' % c[1] if u else a
         if c[2] == 'ENone':
             return a if prog[c[1]][0] == 'Pure' else 'calls %s without forwarding the seed/rng' % c[1]
         return 'passes an unrecognised seed expression to %s' % c[1]
@@ -539,13 +980,13 @@ def may_draw(prog, q, seen=None):
 
 # -------------------------------------------------------------------- encoding for the extracted checker (ocaml/drv_c05.ml)
 def enc_e(e):
-    return {'ESeed': '0', 'ENone': '2', 'EOther': '3'}[e] if isinstance(e, str) else '1 ' + e[1]
+    return {'ESeed': '0', 'ENone': '2', 'EOther': '3', 'EComputed': '5'}[e] if isinstance(e, str) else ('1 ' if e[0] == 'EVar' else '4 ') + e[1]
 
 
 def enc(c):
     t = c[0]
-    if t in ('Skip', 'DrawNpGlobal', 'DrawPyGlobal'):
-        return {'Skip': '0', 'DrawNpGlobal': '3', 'DrawPyGlobal': '4'}[t]
+    if t in ('Skip', 'DrawNpGlobal', 'DrawPyGlobal', 'NonDet'):
+        return {'Skip': '0', 'DrawNpGlobal': '3', 'DrawPyGlobal': '4', 'NonDet': '9'}[t]
     if t == 'GetRng':
         return '1 %s %s' % (c[1], enc_e(c[2]))
     if t == 'DrawLocal':
@@ -561,13 +1002,18 @@ def enc_program(prog):
     return 'check %d ' % len(prog) + ' '.join('%s %d %s' % (q, 0 if k == 'Seeded' else 1, enc(c)) for q, (k, c) in prog.items())
 
 
-def generate(repo, verif, exclude=()):
-    res = build(repo, exclude)
-    txt = emit(res)
-    path = os.path.join(verif, 'coq', 'theories', 'Gen', 'Effects.v')
-    os.makedirs(os.path.dirname(path), exist_ok=True)
-    if not os.path.exists(path) or open(path).read() != txt:
-        open(path, 'w').write(txt)
+def generate(repo, verif, exclude=(), corpus=None):
+    src = read_tree(repo)
+    res = build(src, exclude)
+    out = [('Effects.v', emit(res))]
+    if corpus is not None:
+        res['corpus'] = build_corpus(src, corpus)
+        out.append(('EffectsNeg.v', emit_corpus(res['corpus'])))
+    for name, txt in out:
+        path = os.path.join(verif, 'coq', 'theories', 'Gen', name)
+        os.makedirs(os.path.dirname(path), exist_ok=True)
+        if not os.path.exists(path) or open(path).read() != txt:
+            open(path, 'w').write(txt)
     return res
 
 
@@ -577,3 +1023,13 @@ if __name__ == '__main__':
     v = py_verdicts(r['program'])
     print(json.dumps({'functions': len(r['program']), 'roots': len(r['roots']), 'rejected': {k: x for k, x in v.items() if x},
                       'out_of_scope': r['out_of_scope'], 'get_rng_ok': r['get_rng_ok'], 'sha': r['get_rng_sha']}, indent=1))
+
+
+# -------------------------------------------------------------------- the pinned negative corpus (harness/c05_corpus.py)
+def build_corpus(repo, corpus):
+    """translate the current tree + the corpus modules -> (program = closure of the corpus entry points, negatives, controls, reasons)"""
+    T = Translator(repo, extra=corpus.modules())
+    neg, ctl = corpus.entry_points()
+    keep = closure(T.bodies, neg + ctl)
+    prog = {q: (T.kind(q), T.bodies[q]) for q in sorted(keep)}
+    return {'program': prog, 'negative': neg, 'control': ctl, 'why': {q: T.why.get(q, []) for q in neg}}
